@@ -47,6 +47,96 @@ def gen_cases(tier, seed):
             # one vehicle, time-varying fixed load: the connector headroom binds in some steps
             for st in PROFILE_STRATS:
                 yield {"seed": seed, "i": i, "strategy": st, "pid": PID, "profile": True}
+        else:
+            # vehicles sharing a binding connector; a V2G vehicle above its desired SoC next to a fixed load
+            for st in SHARED_STRATS:
+                yield {"seed": seed, "i": i, "strategy": st, "pid": PID, "shared": True}
+
+
+SHARED_STRATS = ["greedy", "balanced", "distributed"]
+
+
+def build_shared(case):
+    """(a) two vehicles at one connector whose limit binds: `va` (served first: smaller id) stands at a station twice
+    as strong as its curve, so it is offered more than it takes; `vb` is feasible with what `va` can never use
+    (limit - curve maximum of va - fixed load) and stands f x the steps it needs at that power.  (b) a V2G vehicle
+    arrives above its desired SoC (discharge limit below it) next to a fixed load at a dear price and leaves after 1-4
+    steps: its demand is met from the start and must still be met when it leaves."""
+    rng = random.Random("C09s:%s:%s:%s" % (case["seed"], case["i"], case["strategy"]))
+    strat = case["strategy"]
+    interval = rng.choice([10, 15, 15, 30])
+    dt = datetime.timedelta(minutes=interval)
+    start = T0 + datetime.timedelta(days=rng.choice([0, 1, 4]), hours=rng.choice([0, 6, 14]))
+    stype = rng.choice(["deps", "opps"])
+    comp = {"vehicle_types": {}, "vehicles": {}, "grid_connectors": {}, "charging_stations": {}, "batteries": {}}
+    ev = {"fixed_load": {}, "local_generation": {}, "grid_operator_signals": [], "vehicle_events": []}
+    meta = {"vehicles": {}, "interval": interval}
+    fixed = rng.choice([0.0, 3.0, 8.0])
+    if rng.random() < 0.6:
+        # (a) contention
+        pa = rng.choice([11.0, 22.0])
+        vta = {"name": "vta", "capacity": rng.choice([40, 76]), "mileage": 20, "charging_curve": [[0, pa], [1, pa]],
+               "min_charging_power": 0, "battery_efficiency": 0.95, "v2g": False}
+        cname, pts = rng.choice(scen.CURVES[:3])
+        vtb = {"name": "vtb", "capacity": rng.choice([20, 40, 50]), "mileage": 20, "charging_curve": copy.deepcopy(pts),
+               "min_charging_power": 0, "battery_efficiency": rng.choice([0.95, 1.0]), "v2g": False}
+        vmax = max(p[1] for p in pts)
+        csb = rng.choice([vmax, vmax / 2])
+        comp["vehicle_types"] = {"vta": vta, "vtb": vtb}
+        comp["charging_stations"] = {"CS_va_" + stype: {"max_power": 2 * pa, "min_power": 0, "parent": "GC1"},
+                                     "CS_vb_" + stype: {"max_power": csb, "min_power": 0, "parent": "GC1"}}
+        rating = fixed + pa + csb + rng.choice([0.5, 2.0])
+        soc0, desired = rng.choice([0.2, 0.4, 0.6]), rng.choice([0.8, 0.9])
+        need, traj = steps_needed(vtb, soc0, desired, csb, interval)
+        f = rng.choice([1.3, 2.0])
+        stand = max(need + 1, math.ceil(f * need))
+        dep = start + stand * dt - datetime.timedelta(minutes=rng.choice([0, 0, 1]))
+        # va needs the whole time (and more): it keeps drawing its curve maximum
+        comp["vehicles"]["va"] = {"vehicle_type": "vta", "soc": 0.05, "desired_soc": 1.0,
+                                  "connected_charging_station": "CS_va_" + stype,
+                                  "estimated_time_of_departure": scen.iso(dep + 40 * dt)}
+        comp["vehicles"]["vb"] = {"vehicle_type": "vtb", "soc": soc0, "desired_soc": desired,
+                                  "connected_charging_station": "CS_vb_" + stype,
+                                  "estimated_time_of_departure": scen.iso(dep)}
+        seg = [q[1] for q in pts]
+        meta["vehicles"]["vb"] = {"need": need, "stand": stand, "f": f, "const_curve": len(set(seg)) == 1,
+                                  "cs": "CS_vb_" + stype, "dep_step": stand, "arrive_step": 0, "traj": traj,
+                                  "soc0": soc0, "desired": desired, "cs_power": csb, "profile": "shared_connector"}
+        dep_events = [("vb", dep)]
+        n_steps = stand + 3
+    else:
+        # (b) V2G vehicle above its desired SoC
+        p = rng.choice([11.0, 22.0])
+        vt = {"name": "vtv", "capacity": rng.choice([40, 60]), "mileage": 20, "charging_curve": [[0, p], [1, p]],
+              "min_charging_power": 0, "battery_efficiency": 0.95, "v2g": True, "v2g_power_factor": rng.choice([0.5, 1.0]),
+              "discharge_limit": rng.choice([0.2, 0.5])}
+        comp["vehicle_types"] = {"vtv": vt}
+        comp["charging_stations"] = {"CS_vc_" + stype: {"max_power": p, "min_power": 0, "parent": "GC1"}}
+        fixed = rng.choice([10.0, 30.0])
+        rating = fixed + p + 5.0
+        desired = rng.choice([0.6, 0.8])
+        soc0 = round(desired + rng.choice([0.02, 0.05, 0.1]), 3)
+        stand = rng.randint(1, 4)
+        dep = start + stand * dt - datetime.timedelta(minutes=rng.choice([0, 0, 1]))
+        comp["vehicles"]["vc"] = {"vehicle_type": "vtv", "soc": soc0, "desired_soc": desired,
+                                  "connected_charging_station": "CS_vc_" + stype,
+                                  "estimated_time_of_departure": scen.iso(dep)}
+        meta["vehicles"]["vc"] = {"need": 0, "stand": stand, "f": 2.0, "const_curve": True, "cs": "CS_vc_" + stype,
+                                  "dep_step": stand, "arrive_step": 0, "traj": [soc0], "soc0": soc0, "desired": desired,
+                                  "cs_power": p, "profile": "v2g_above_desired"}
+        dep_events = [("vc", dep)]
+        n_steps = stand + 3
+    comp["grid_connectors"]["GC1"] = {"max_power": rating, "voltage_level": "MV", "cost": {"type": "fixed", "value": 0.3}}
+    if fixed:
+        ev["fixed_load"]["load"] = {"start_time": scen.iso(start), "step_duration_s": interval * 60,
+                                    "grid_connector_id": "GC1", "values": [fixed] * n_steps}
+    for vid, d in dep_events:
+        ev["vehicle_events"].append({
+            "signal_time": scen.iso(d - datetime.timedelta(hours=2)), "start_time": scen.iso(d), "vehicle_id": vid,
+            "event_type": "departure", "update": {"estimated_time_of_arrival": scen.iso(d + datetime.timedelta(hours=8))}})
+    scn = {"scenario": {"start_time": scen.iso(start), "interval": interval, "n_intervals": n_steps},
+           "components": comp, "events": ev}
+    return {"scenario": scn, "strategy": strat, "options": {}, "meta": meta, "pid": PID}
 
 
 def build_profile(case):
@@ -141,6 +231,8 @@ def build(case):
         return case
     if case.get("profile"):
         return build_profile(case)
+    if case.get("shared"):
+        return build_shared(case)
     rng = random.Random("C09:%s:%s:%s" % (case["seed"], case["i"], case["strategy"]))
     strat = case["strategy"]
     interval = rng.choice([5, 10, 15, 15, 30])
@@ -275,7 +367,7 @@ def eval_case(case):
         cls = "constant_curve" if m["const_curve"] else "varying_curve"
         tight = "tight" if m["f"] <= 1.05 else "slack"
         if soc_dep < m["desired"] - 1e-4:
-            if m.get("profile"):
+            if m.get("profile") in ("rising_load", "random_load"):
                 cls = cls + "_headroom_" + m["profile"]
             viol.append(("service", "C09:desired_soc_missed:%s:%s:%s" % (strat, cls, tight),
                          "%s left at step %d with %.6f < desired %.4f (needed %d steps, stood %d, f=%s)"
